@@ -107,8 +107,9 @@ class SModel:
 class Model:
     name = 'c19'
 
-    def __init__(self) -> None:
-        self.params = {}
+    def __init__(self, segmented: bool = False) -> None:
+        self.params = {'segmented': segmented}
+        self.segmented = segmented
         self._alpha = build_alphabet()
 
     def alphabet(self):
@@ -145,7 +146,21 @@ class Model:
     def send(self, ctx, c, line, conts=()):
         s = ctx.s[c]
         n0 = len(s.responses)
-        ctx.world.send(s, line + b'\r\n')
+        if self.segmented:
+            # the same bytes in several TCP segments: each one ends one byte
+            # past a line break (so every literal is cut after its first
+            # byte); the server runs until quiescent in between
+            data = line + b'\r\n'
+            cuts = [i + 2 for i in range(len(data)) if data[i:i + 1] == b'\n'
+                    and i + 2 < len(data)]
+            prev = 0
+            for cpos in cuts + [len(data)]:
+                if s.done:
+                    break
+                ctx.world.send(s, data[prev:cpos])
+                prev = cpos
+        else:
+            ctx.world.send(s, line + b'\r\n')
         for chunk in conts:
             new = s.responses[n0:]
             if any(r[0] == 'status' for r in new) or s.done:
@@ -397,7 +412,24 @@ def run(*, tier, seed, jobs, progress, opts):
                                     for e in c['single_outcome_events']]
     cov['rule'] = ('all ManageSieve command sequences up to the depth bound '
                    'on two connections (full alphabet on the first, reduced '
-                   'on the second), deduplicated by model state + auth state')
+                   'on the second), deduplicated by model state + auth state; '
+                   'the same exploration to depth-1 with every command '
+                   'delivered in several segments (cut one byte past every '
+                   'line break, i.e. inside every literal)')
+    # delivery deviation: segmented input, same oracle
+    m2 = Model(segmented=True)
+    res2 = bfs(m2, max(1, depth - 1), jobs=jobs, seed=seed, progress=progress,
+               max_states=int(opts.get('max_states', 400000)))
+    if res2.errors:
+        print(res2.errors[0])
+        raise RuntimeError('harness error during exploration')
+    c2 = res2.coverage(m2)
+    cov['segmented'] = {k: c2[k] for k in ('states', 'transitions',
+                                           'depth_completed')}
+    cov['states'] += c2['states']
+    cov['transitions'] += c2['transitions']
+    cov['traces_validated_against_impl'] += c2['transitions']
+    res.violations += res2.violations
     return finish(PROP, tier=tier, seed=seed, level='model_checking',
                   coverage=cov, violations=res.violations, t0=t0,
                   assumptions=['dict backend filter store; two users',
@@ -407,7 +439,7 @@ def run(*, tier, seed, jobs, progress, opts):
 
 def replay(rec):
     r = rec['replay']
-    m = Model()
+    m = Model(**r.get('params', {}))
     viols = run_history(m, r['history'])
     for v in viols:
         print('VIOLATION-REPLAYED', v['rule'], v['site'], v['msg'])
